@@ -93,12 +93,42 @@ def check_trace(rep, case, run, nodes, fail_at, kind, stats):
     # the exception that reaches the caller
     if fail_at is not None:
         want_cls = {"proc": "proc", "keyboard-interrupt": "proc:KeyboardInterrupt", "unresolved": "unresolved", "type-gate": "typeGate",
-                    "undeclared-write": "undeclaredWrite", "construct-unknown-param": "unknownParam", "construct-probe-no-key": "config"}[kind]
+                    "undeclared-write": "undeclaredWrite", "construct-unknown-param": "unknownParam", "construct-probe-no-key": "config"}.get(kind)
+        if want_cls is None:
+            want_cls = case.get("untraced_class")
         if res["cls"] is None or res["cls"][1] != want_cls:
             rep.add_violation(f"exception-changed:{sig_tail}", f"the injected {kind} failure reaches the caller as {res['cls']} ({res['exc']!r})", pub)
     elif res["outcome"] != "ok":
         rep.add_violation("traced-run-fails", f"a run without injected fault fails: {res['exc']!r}", pub)
     return got
+
+
+def exotic_runs(rep, rnd, stats, tier):
+    """Unusual but legal values (non-finite floats, lone surrogates, bytes, control characters ...) in node parameters, context
+    values and error messages: the trace of such a run must be as well-formed as any other, and the caller must see what the
+    untraced run gives."""
+    from props.c10 import EXOTIC_VALUES
+    for kind, val in EXOTIC_VALUES.items():
+        for where in ("node-config", "context", "error-message"):
+            if where == "node-config":
+                nodes, ctx = [{"processor": "TSource", "parameters": {"v": val}}, {"processor": "TOp0"}], {}
+            elif where == "context":
+                nodes, ctx = [{"processor": "TSourceDef"}, {"processor": "TOp1"}, {"processor": "TOp0"}], {"a": val}
+            else:
+                if not isinstance(val, str):
+                    continue
+                nodes, ctx = [{"processor": "TSourceDef"}, {"processor": "TFailMsg", "parameters": {"msg": val}}, {"processor": "TOp0"}], {}
+            plain = pipegen.run_real(nodes, ctx)
+            fail_at = None if plain["outcome"] == "ok" else ("construct" if plain["outcome"] == "constructError" else plain["started"] - 1)
+            if plain["pipeline"] is None:
+                continue        # rejected by Pipeline(...) itself (the value cannot be part of a canonical spec): no run, no trace
+            for detail, to_file in ((rnd.choice(tracegen.DETAILS), True), (rnd.choice(tracegen.DETAILS), False)):
+                run = tracegen.traced_run(nodes, ctx, detail=detail, to_file=to_file)
+                stats["runs"] += 1
+                stats["by_kind"]["exotic-value"] = stats["by_kind"].get("exotic-value", 0) + 1
+                case = {"fault": f"exotic-value:{kind}:{where}", "position": fail_at, "detail": detail, "output": "file" if to_file else "directory",
+                        "untraced_class": plain["cls"][1] if plain["cls"] else None, "value": repr(val)[:60]}
+                check_trace(rep, case, run, nodes, fail_at, f"exotic-value:{kind}:{where}", stats)
 
 
 def run(tier: str) -> int:
@@ -145,6 +175,7 @@ def run(tier: str) -> int:
                 expect_model.append((case, nodes, got))
                 if len(samples) < 5 and stats["runs"] % 23 == 1:
                     samples.append(dict(case, nodes=[x["processor"] for x in nodes], events=got))
+    exotic_runs(rep, rnd, stats, tier)
     if shape is not None:
         try:
             ans = core.Driver().run(reqs)
